@@ -68,7 +68,7 @@ def gen_infra(rng, tier, n=None):
         if t < 0.45:        # continuous from zero
             mx = float(rng.choice([32, 32, 16, 40, 64, 80, 12.5]))
             allow.append([0.0, mx]); minp.append(0.0); maxp.append(mx); cont.append(True); etype.append("C0")
-        elif t < 0.55:      # continuous with a positive minimum (outside the EVSE clause of C07; unit level only)
+        elif t < 0.58:      # continuous with a positive minimum (outside the EVSE clause of C07; unit level only)
             mx = float(rng.choice([32, 16, 40]))
             mn = float(rng.choice([6, 8, 1.5]))
             allow.append([mn, mx]); minp.append(mn); maxp.append(mx); cont.append(True); etype.append("Cm")
@@ -122,7 +122,7 @@ def gen_infra(rng, tier, n=None):
     return dict(N=N, A=A, L=L, phases=phases, volt=volt, maxp=maxp, minp=minp, allow=allow, cont=cont, etype=etype)
 
 
-def gen_sessions(rng, infra, now, period, distinct_keys=False, user_bounds=True):
+def gen_sessions(rng, infra, now, period, distinct_keys=False, user_bounds=True, plenty=0.45):
     N = infra["N"]
     k = rng.choice([0, 1] + list(range(1, N + 1)) * 3)
     k = min(k, N)
@@ -147,8 +147,13 @@ def gen_sessions(rng, infra, now, period, distinct_keys=False, user_bounds=True)
         per_amp = V * period / 60.0 / 1000.0            # kWh delivered by 1 A for one period
         req = round(rng.uniform(1, 40), rng.choice([0, 1, 3]))
         t = rng.random()
-        if t < 0.45:                                     # plenty left
+        if t < plenty:                                   # plenty left
             rem = rng.uniform(0.3, 1.0) * req
+            t = 0.0
+        else:
+            t = 0.45 + (t - plenty) / (1 - plenty) * 0.55
+        if t == 0.0:
+            pass
         elif t < 0.6:                                    # remaining demand between two levels / below max pilot
             rem = per_amp * rng.uniform(0.05, 1.0) * mp
         elif t < 0.8:                                    # nearly finished: around the minimum pilot / threshold
@@ -217,11 +222,25 @@ def gen_ramp(rng, infra, sess):
 
 
 def gen_scenario(rng, tier, algo=None, sort=None, est=None, unint=None, inc=None, distinct_keys=False,
-                 user_bounds=True):
+                 user_bounds=True, plenty=0.45):
     infra = gen_infra(rng, tier)
     period = float(rng.choice([1, 5, 5, 15]))
     now = rng.randint(0, 60)
-    sess = gen_sessions(rng, infra, now, period, distinct_keys=distinct_keys, user_bounds=user_bounds)
+    sess = gen_sessions(rng, infra, now, period, distinct_keys=distinct_keys, user_bounds=user_bounds, plenty=plenty)
+    # place most limits where they bind for the sessions that are actually present
+    cosv = [math.cos(math.radians(p)) for p in infra["phases"]]
+    sinv = [math.sin(math.radians(p)) for p in infra["phases"]]
+    load = [0.0] * infra["N"]
+    for s in sess:
+        rap_ = (s["req"] - s["deliv"]) * 1000 / infra["volt"][s["st"]] * 60 / period
+        load[s["st"]] = max(0.0, min(infra["maxp"][s["st"]], rap_))
+    for j, row in enumerate(infra["A"]):
+        if rng.random() < 0.65:
+            re = sum(row[i] * cosv[i] * load[i] for i in range(infra["N"]))
+            im = sum(row[i] * sinv[i] * load[i] for i in range(infra["N"]))
+            act = max(math.hypot(re, im), 0.5 * sum(abs(row[i]) * load[i] for i in range(infra["N"])))
+            if act > 2.0:
+                infra["L"][j] = float(round(act * rng.uniform(0.15, 0.95), rng.choice([0, 1, 2])))
     est_on = rng.random() < 0.5 if est is None else est
     scn = dict(infra=infra, period=period, now=now, sessions=sess,
                algo=algo or rng.choice(["greedy", "rr"]),
